@@ -488,7 +488,10 @@ class Optic:
             'solves': self.solves.to_dict()
         }
 
-        data['wavelengths']['polarization'] = self.polarization
+        data['wavelengths']['polarization'] = \
+            self.polarization.to_dict() \
+            if isinstance(self.polarization, PolarizationState) \
+            else self.polarization
         data['fields']['field_type'] = self.field_type
         data['fields']['object_space_telecentric'] = self.obj_space_telecentric
         return data
@@ -513,7 +516,9 @@ class Optic:
         optic.pickups = PickupManager.from_dict(optic, data['pickups'])
         optic.solves = SolveManager.from_dict(optic, data['solves'])
 
-        optic.polarization = data['wavelengths']['polarization']
+        polarization = data['wavelengths']['polarization']
+        optic.polarization = PolarizationState.from_dict(polarization) \
+            if isinstance(polarization, dict) else polarization
         optic.field_type = data['fields']['field_type']
         optic.obj_space_telecentric = \
             data['fields']['object_space_telecentric']
